@@ -7,8 +7,10 @@
 // executed command becomes one self-contained NDJSON event {h,k,cmd,pre,post,res} that TLC judges
 // with spec/DiscoChainTrace.tla; with -auto every write/delete is followed by compile events for
 // every service (several evaluation contexts, compiler called directly and through the store).
-// No verdict is computed here. Exit 3 = a compilation did not return within the watchdog (the
-// event with res.hung = true is the last line of the trace).
+// No verdict is computed here. A call that does not return within the watchdog is recorded with the
+// result class "no-return", its behaviour is abandoned and the others go on; exit 3 = some call did
+// not return (the one-line summary says which behaviours, and where a fresh process can resume when
+// the run was ended early).
 package main
 
 import (
@@ -19,6 +21,7 @@ import (
 	"math/rand"
 	"os"
 	"runtime"
+	"strconv"
 	"strings"
 	"sync"
 	"time"
@@ -55,8 +58,27 @@ func (r *recorder) emit(ev event) {
 	r.mu.Unlock()
 }
 
-// parallel runs fn(0..n-1) on a few workers (behaviours share nothing: one store each).
-func parallel(n int, fn func(i int)) {
+// sched hands out behaviour indices to the workers and knows what is in flight, so that the run can
+// be cut short (too many no-returns, memory) and resumed by a fresh process (-from / -skip).
+var sched struct {
+	mu       sync.Mutex
+	inflight map[int]bool
+	next     int   // first index not handed out yet
+	n        int   // number of behaviours
+	noret    []int // behaviours abandoned because a call did not return
+	done     int   // behaviours executed to the end
+	stop     bool
+}
+
+// maxNoReturn: after that many abandoned calls no further behaviour is started (every abandoned
+// goroutine keeps a core busy); the summary tells where a fresh process can resume.
+const maxNoReturn = 3
+
+type abandon struct{}
+
+// parallel runs fn(i) for i in from..n-1 (except skip) on a few workers (behaviours share nothing:
+// one store each). A behaviour whose call did not return is abandoned (panic(abandon{})).
+func parallel(from, n int, skip map[int]bool, fn func(i int)) {
 	workers := runtime.NumCPU() / 2
 	if workers < 1 {
 		workers = 1
@@ -64,22 +86,98 @@ func parallel(n int, fn func(i int)) {
 	if workers > 8 {
 		workers = 8
 	}
+	sched.inflight = map[int]bool{}
+	sched.next, sched.n = from, n
 	var wg sync.WaitGroup
-	next := make(chan int)
 	for w := 0; w < workers; w++ {
 		wg.Add(1)
 		go func() {
 			defer wg.Done()
-			for i := range next {
-				fn(i)
+			for {
+				sched.mu.Lock()
+				for sched.next < n && skip[sched.next] {
+					sched.next++
+				}
+				if sched.stop || sched.next >= n {
+					sched.mu.Unlock()
+					return
+				}
+				i := sched.next
+				sched.next++
+				sched.inflight[i] = true
+				sched.mu.Unlock()
+				func() {
+					defer func() {
+						if p := recover(); p != nil {
+							if _, ok := p.(abandon); !ok {
+								panic(p)
+							}
+						}
+						sched.mu.Lock()
+						delete(sched.inflight, i)
+						sched.done++
+						sched.mu.Unlock()
+					}()
+					fn(i)
+				}()
 			}
 		}()
 	}
-	for i := 0; i < n; i++ {
-		next <- i
-	}
-	close(next)
 	wg.Wait()
+}
+
+// summary prints the one-line result of the process. resume = -1: everything was executed.
+func summary(rec *recorder, forced bool) {
+	sched.mu.Lock()
+	resume := -1
+	if sched.next < sched.n {
+		resume = sched.next
+	}
+	if forced {
+		for i := range sched.inflight {
+			gone := false
+			for _, h := range sched.noret {
+				gone = gone || h == i
+			}
+			if !gone && (resume < 0 || i < resume) {
+				resume = i
+			}
+		}
+	}
+	nr, _ := json.Marshal(append([]int{}, sched.noret...))
+	fmt.Printf("{\"behaviours\":%d,\"events\":%d,\"hung\":%v,\"noreturn\":%s,\"resume\":%d}\n",
+		sched.done, rec.events, len(sched.noret) > 0, nr, resume)
+}
+
+// finish flushes the trace and ends the process: 0 = all calls returned, 3 = some call did not.
+func finish(rec *recorder, forced bool) {
+	rec.mu.Lock() // never released: nothing is written afterwards
+	rec.w.Flush()
+	summary(rec, forced)
+	if len(sched.noret) > 0 || forced {
+		os.Exit(3)
+	}
+	os.Exit(0)
+}
+
+// memoryGuard gives up calls that run while the heap explodes, and ends the process if that does
+// not help (a fresh process resumes behind the culprit).
+func memoryGuard(rec *recorder, limit uint64) {
+	go func() {
+		var ms runtime.MemStats
+		high := 0
+		for {
+			time.Sleep(250 * time.Millisecond)
+			runtime.ReadMemStats(&ms)
+			if ms.HeapAlloc > limit {
+				dh.MemHigh.Store(true)
+				high++
+				if high > 40 || ms.HeapAlloc > 3*limit { // 10 s over the limit, or far beyond it
+					finish(rec, true)
+				}
+			}
+		}
+	}()
 }
 
 func fatal(f string, a ...interface{}) {
@@ -130,16 +228,16 @@ func (r *runner) stepC(c *dh.Cmd, silent bool) (accepted bool, class string) {
 			}
 			done <- o
 		}()
-		select {
-		case o := <-done:
+		if o, ok := dh.WaitChan(done, 2*dh.Watchdog); ok {
 			if o.err != nil {
 				fatal("%s %+v: %v", c.T, c, o.err)
 			}
 			res = o.wr
 			accepted = o.wr.Class == "ok"
 			class = o.wr.Class
-		case <-time.After(3 * dh.Watchdog):
-			res = dh.WriteRes{Class: "hung"}
+		} else {
+			// the goroutine is abandoned (it holds the store's write transaction)
+			res = dh.WriteRes{Class: "no-return"}
 			hung = true
 		}
 	case "compile":
@@ -165,10 +263,17 @@ func (r *runner) stepC(c *dh.Cmd, silent bool) (accepted bool, class string) {
 		r.rec.emit(event{H: r.hi, K: r.k, Cmd: c, Pre: pre, Post: post, Res: res})
 	}
 	if hung {
-		r.rec.mu.Lock() // never released: nothing is written after the hung event
-		r.rec.w.Flush()
-		fmt.Printf("{\"behaviours\":%d,\"events\":%d,\"hung\":true}\n", r.hi+1, r.rec.events)
-		os.Exit(3)
+		// this behaviour is abandoned, the others go on; too many abandoned calls end the run early
+		sched.mu.Lock()
+		sched.noret = append(sched.noret, r.hi)
+		if len(sched.noret) >= maxNoReturn {
+			sched.stop = true
+		}
+		sched.mu.Unlock()
+		if dh.MemHigh.Load() {
+			finish(r.rec, true)
+		}
+		panic(abandon{})
 	}
 	return accepted, class
 }
@@ -187,6 +292,8 @@ func (r *runner) compileProposed(c *dh.Cmd, svcs []string) {
 }
 
 var nAutoCtx = 3
+
+var memLimit uint64 = 3 << 30
 
 var autoCtx = []dh.Ctx{
 	{Dc: "dc1"},
@@ -226,7 +333,7 @@ func normCmd(c *dh.Cmd) *dh.Cmd {
 	return &c2
 }
 
-func replay(in, out string, auto, lastonly bool, svcs []string, reps int, seed int64) {
+func replay(in, out string, auto, lastonly bool, svcs []string, reps int, seed int64, from int, skip map[int]bool) {
 	b, err := os.ReadFile(in)
 	if err != nil {
 		fatal("%v", err)
@@ -241,7 +348,8 @@ func replay(in, out string, auto, lastonly bool, svcs []string, reps int, seed i
 	}
 	defer f.Close()
 	rec := &recorder{w: bufio.NewWriterSize(f, 1<<20)}
-	parallel(len(behs), func(hi int) {
+	memoryGuard(rec, memLimit)
+	parallel(from, len(behs), skip, func(hi int) {
 		beh := behs[hi]
 		h, err := dh.New()
 		if err != nil {
@@ -262,8 +370,7 @@ func replay(in, out string, auto, lastonly bool, svcs []string, reps int, seed i
 			}
 		}
 	})
-	rec.w.Flush()
-	fmt.Printf("{\"behaviours\":%d,\"events\":%d,\"hung\":false}\n", len(behs), rec.events)
+	finish(rec, false)
 }
 
 // ---------------------------------------------------------------- seeded random driver
@@ -421,6 +528,11 @@ func (g *gen) next() *dh.Cmd {
 	}
 	c.T = "write"
 	c.E = g.entry()
+	if g.r.Intn(100) < 12 {
+		if e := g.loopMaker(st); e != nil {
+			c.E = e
+		}
+	}
 	if g.r.Intn(5) == 0 {
 		c.Mode = "cas"
 		c.Cidx = g.casIdx(c.E.Kind, c.E.Name)
@@ -428,19 +540,75 @@ func (g *gen) next() *dh.Cmd {
 	return c
 }
 
+// loopMaker proposes an entry that closes a loop somewhere in the stored graph, or puts a router /
+// another splitter in front of stored splitters, so that cycles also lie BEHIND the compiled service
+// (not only through it): the back edge goes from the target of a stored splitter leg or redirect to
+// its source, or to something upstream of it.
+func (g *gen) loopMaker(st dh.State) *dh.Entry {
+	type edge struct{ from, to, kind string }
+	var edges []edge
+	for _, x := range st.Ents {
+		switch x.Kind {
+		case "splitter":
+			for _, l := range x.Legs {
+				if l.Svc != "" && l.Svc != x.Name && l.Sub == "" {
+					edges = append(edges, edge{x.Name, l.Svc, "splitter"})
+				}
+			}
+		case "resolver":
+			if x.Redirect.Svc != "" && x.Redirect.Svc != x.Name {
+				edges = append(edges, edge{x.Name, x.Redirect.Svc, "resolver"})
+			}
+		}
+	}
+	if len(edges) == 0 {
+		return nil
+	}
+	ed := edges[g.r.Intn(len(edges))]
+	e := &dh.Entry{}
+	switch x := g.r.Intn(10); {
+	case x < 5: // back edge of the same kind: to -> from
+		e.Kind, e.Name = ed.kind, ed.to
+		if ed.kind == "splitter" {
+			e.Legs = []dh.Ref{{Svc: ed.from}}
+			if g.r.Intn(2) == 0 {
+				e.Legs = append([]dh.Ref{{}}, e.Legs...)
+				e.Wp = g.r.Intn(5)
+			}
+		} else {
+			e.Redirect = dh.Ref{Svc: ed.from}
+		}
+	case x < 8: // a router in front of the source (or of some other service) routing into the edge
+		e.Kind, e.Name = "router", g.pick([]string{ed.from, ed.from, g.pick(rSvcs)})
+		e.Routes = []dh.Ref{{Svc: ed.from}}
+		if g.r.Intn(2) == 0 {
+			e.Routes = append(e.Routes, dh.Ref{Svc: ed.to})
+		}
+	default: // another splitter upstream of the source
+		e.Kind, e.Name = "splitter", g.pick(rSvcs)
+		if e.Name == ed.from {
+			return nil
+		}
+		e.Legs = []dh.Ref{{Svc: ed.from}}
+	}
+	dh.NormEntry(e)
+	return e
+}
+
 var (
 	rOps = []string{"", "", "tcp", "http", "grpc", "http2"}
 	rMgs = []string{"", "", "local", "remote", "none"}
 )
 
-func random(seed int64, n, length int, out string, reps int) {
+func random(seed int64, n, length int, out string, reps int, from int, skip map[int]bool) {
 	f, err := os.Create(out)
 	if err != nil {
 		fatal("%v", err)
 	}
 	defer f.Close()
 	rec := &recorder{w: bufio.NewWriterSize(f, 1<<20)}
-	parallel(n, func(t int) {
+	memoryGuard(rec, memLimit)
+	parallel(from, n, skip, func(t int) {
 		h, err := dh.New()
 		if err != nil {
 			fatal("new store: %v", err)
@@ -480,8 +648,7 @@ func random(seed int64, n, length int, out string, reps int) {
 			r.step(&dh.Cmd{T: "compile", Svc: g.pick(rSvcs), Ctx: &y, Src: "store"}, false)
 		}
 	})
-	rec.w.Flush()
-	fmt.Printf("{\"behaviours\":%d,\"events\":%d,\"hung\":false}\n", n, rec.events)
+	finish(rec, false)
 }
 
 func main() {
@@ -500,18 +667,28 @@ func main() {
 	reps := fs.Int("reps", 5, "compilations per compile command")
 	wd := fs.Duration("watchdog", dh.Watchdog, "bound of one compilation")
 	actx := fs.Int("actx", 3, "number of evaluation contexts compiled directly by -auto (1..3)")
+	from := fs.Int("from", 0, "first behaviour / history to execute (resuming after an early end)")
+	skipS := fs.String("skip", "", "comma separated behaviours / histories not to execute (they did not return)")
+	memMB := fs.Int("memlimit", 3072, "heap limit in MiB above which running calls are given up")
 	debug := fs.Bool("debug", false, "record the complete distinct outputs of compile commands")
 	_ = fs.Parse(os.Args[2:])
 	dh.Watchdog = *wd
 	dh.Debug = *debug
+	memLimit = uint64(*memMB) << 20
+	skip := map[int]bool{}
+	for _, x := range strings.Split(*skipS, ",") {
+		if i, err := strconv.Atoi(x); err == nil {
+			skip[i] = true
+		}
+	}
 	if *actx >= 1 && *actx <= len(autoCtx) {
 		nAutoCtx = *actx
 	}
 	switch os.Args[1] {
 	case "replay":
-		replay(*in, *out, *auto, *lastonly, strings.Split(*svcs, ","), *reps, *seed)
+		replay(*in, *out, *auto, *lastonly, strings.Split(*svcs, ","), *reps, *seed, *from, skip)
 	case "random":
-		random(*seed, *n, *length, *out, *reps)
+		random(*seed, *n, *length, *out, *reps, *from, skip)
 	default:
 		fatal("unknown mode %s", os.Args[1])
 	}
